@@ -170,6 +170,30 @@ def c04_writer(klepto, archmon, job):
                 rec['rebuild']['copy_settings'] = settings_of(r2) == settings_of(a)
             except Exception as e:
                 rec['rebuild']['copy'] = {'error': '%s: %s' % (type(e).__name__, str(e)[:160])}
+            try:
+                # copy(<another name>): afterwards the original handle still writes to its own store, and the copy is
+                # a snapshot that no longer follows it
+                if b['kind'] == 'sql':
+                    newname = 'sqlite:///%s?table=copied%d' % (os.path.join(root, 'arch.db'), i)
+                elif b['kind'] == 'dir':
+                    newname = os.path.join(root, 'copied%d' % i)
+                else:
+                    ext = '.py' if not b.get('serialized', True) else ('.json' if b.get('protocol') == 'json' else '.pkl')
+                    newname = os.path.join(root, 'copied%d%s' % (i, ext))
+                r4 = a.copy(newname)
+                pk = 'copyprobe'
+                a[pk] = 4711
+                fresh = archmon.public_open(b, root, False)
+                rec['rebuild']['named_copy'] = {'original_store_has_write': fresh.get(pk) == 4711,
+                                                'copy_followed_original': r4.get(pk) == 4711,
+                                                'original_settings_kept': settings_of(a) == settings_of(fresh)}
+                a.pop(pk, None)
+                for h in (fresh, r4):
+                    conn = getattr(h, '_conn', None)
+                    if conn is not None:
+                        conn.close()
+            except Exception as e:
+                rec['rebuild']['named_copy'] = {'error': '%s: %s' % (type(e).__name__, str(e)[:160])}
             if b['kind'] != 'sql':
                 try:
                     r3 = dill.loads(dill.dumps(a))
@@ -404,6 +428,15 @@ def run_case_c04(case):
                         check_report(rb[how], want, 'rebuilt-from-' + how, i, bad, stale_pyc_mech(case, 'new_handle'))
                         if rb.get(how + '_settings') is False:
                             bad('rebuilt-archive-settings-differ', 'archive rebuilt via %s reports different state' % how)
+                nc = rb.get('named_copy')
+                if nc is not None:
+                    note('c04_named_copy_checks')
+                    if 'error' in nc:
+                        bad('named-copy-failed', 'copy(<new name>) / writing afterwards raised %s' % nc['error'])
+                    elif not nc['original_store_has_write'] or nc['copy_followed_original'] or not nc['original_settings_kept']:
+                        bad('original-redirected-by-copy', 'after a.copy(<new name>) a write through a: visible to a fresh handle '
+                            'on the original location: %r; visible through the copy: %r; original still reports its own settings: %r'
+                            % (nc['original_store_has_write'], nc['copy_followed_original'], nc['original_settings_kept']))
                 if rb.get('dill_shares_store') is False:
                     bad('rebuilt-archive-other-store', 'a write through the unpickled archive is not visible through the original')
         cell = case.get('func_cell')
